@@ -72,8 +72,63 @@ def _single_row(genome, fmt, tmp):
 	return _single[key]
 
 
+def _two_db_case(case):
+	"""the same batch against database A, an edited copy B (same primary keys, renamed taxa, changed thresholds), and A again, in ONE process:
+	a row depends on the genome and on the database it was queried against only"""
+	import sqlite3, glob
+	root = _root()
+	tmp = tempfile.mkdtemp(prefix='c08_')
+	try:
+		db2 = os.path.join(tmp, 'db2')
+		os.makedirs(db2)
+		for f in glob.glob(os.path.join(root, '*.gdb')) + glob.glob(os.path.join(root, '*.gs')):
+			shutil.copy(f, db2)
+		con = sqlite3.connect(glob.glob(os.path.join(db2, '*.gdb'))[0])
+		con.execute("UPDATE taxa SET name = name || ' (edited)'")
+		con.execute("UPDATE taxa SET distance_threshold = distance_threshold * 0.05 WHERE distance_threshold IS NOT NULL AND id % 2 = 0")
+		con.execute("UPDATE taxa SET distance_threshold = 1.0 WHERE distance_threshold IS NOT NULL AND id % 3 = 1")
+		con.commit()
+		con.close()
+		gdir = os.path.join(root, 'queries', 'genomes')
+		paths = [os.path.join(gdir, g + '.fasta') for g in case['genomes']]
+		runs = []
+		for which in (root, db2, root, db2):
+			out = os.path.join(tmp, f'o{len(runs)}.csv')
+			st = _cli(['--db', which, 'query', '--no-progress', '-o', out] + paths)
+			if st != 'ok':
+				return {'ok': False, 'expected': 'success', 'actual': st}
+			runs.append(_rows(out, 'csv'))
+		problems = []
+		if runs[0] != runs[2]:
+			problems.append('database A gives different rows after database B was queried in the same process')
+		if runs[1] != runs[3]:
+			problems.append('database B gives different rows the second time')
+		exp_a = [_single_row(g, 'csv', tmp) for g in case['genomes']]
+		if [tuple(r) for r in runs[0]] != [tuple(e) for e in exp_a]:
+			problems.append('rows for database A differ from the single-genome runs')
+		# independent expectation for B: the same command in a FRESH process that never saw database A
+		import subprocess, sys
+		outb = os.path.join(tmp, 'fresh.csv')
+		env = dict(os.environ)
+		pr = subprocess.run([sys.executable, '-c', 'import sys; from gambit.cli import cli; cli.main(sys.argv[1:], standalone_mode=False)',
+		                     '--db', db2, 'query', '--no-progress', '-o', outb] + paths, capture_output=True, text=True, env=env)
+		if not os.path.exists(outb):
+			return {'error': 'fresh-process run failed: ' + pr.stderr[-400:]}
+		if runs[1] != _rows(outb, 'csv'):
+			problems.append('rows for database B differ from the rows a fresh process computes for B')
+		for r in runs[1]:
+			for col in (1, 7):      # predicted.name, next.name
+				if r[col] and not r[col].endswith(' (edited)'):
+					problems.append(f'row for {r[0]} queried against B shows a taxon name of A: {r[col]!r}')
+		return {'ok': not problems, 'expected': 'rows depend on genome and database only', 'actual': problems[:3] or 'ok'}
+	finally:
+		shutil.rmtree(tmp, ignore_errors=True)
+
+
 def run_case(case):
 	kind = case['kind']
+	if kind == 'twodb':
+		return _two_db_case(case)
 	if kind == 'label':
 		from gambit.cli.common import get_file_id
 		exp, act = spec_label(case['path']), get_file_id(case['path'])
@@ -166,6 +221,8 @@ def bounded(tier, seed):
 			cases.append({'kind': 'cli', 'genomes': gs, 'names': nm, 'gz': [False] * len(gs), 'fmt': 'json' if i % 3 == 2 else 'csv', 'channel': channel,
 			              'cores': rnd.choice([None, 2]), 'progress': False})
 			cases.append({'kind': 'cli', 'genomes': gs[::-1], 'names': nm, 'gz': [False] * len(gs), 'fmt': 'csv', 'channel': channel, 'cores': None, 'progress': False})
+	for _ in range(2 if tier == 'quick' else 10):
+		cases.append({'kind': 'twodb', 'genomes': rnd.sample(allg, rnd.choice([2, 4]))})
 	n, failures, sample = 0, [], []
 	for c in cases:
 		r = run_case(c)
